@@ -231,7 +231,7 @@ def iw_cases(draw, tier):
     if draw(st.sampled_from([0, 0, 1])):
         warm = [[draw(st.sampled_from([0, 1, 2])), draw(st.booleans())] for _ in range(draw(st.integers(1, 2)))]
     return {'entry': 'iw', 'opts': _opts(draw), 'colours': _colours(draw), 'pool': pool,
-            'share': draw(st.booleans()), 'frames': frames, 'warm': warm}
+            'share': draw(st.booleans()), 'frames': frames, 'warm': warm, 'rewrite': bool(draw(st.sampled_from([0, 0, 0, 1])))}
 
 
 def _eff(fr):
@@ -535,6 +535,12 @@ def run_iw(case, generic=False):
                 f0['crop'] = None
             iw.write_image(_build_frames(dict(case, frames=[f0])), io.BytesIO())
     frames = _build_frames(case)
+    if not generic and case.get('rewrite'):
+        # the same Frame objects written once before by a writer with the opposite animation setting (#FRAMES of an
+        # existing frame, two writers sharing frames): the judged write must not depend on it
+        o2 = {k: str(v) for k, v in case['opts'].items()}
+        o2['PNGEnableAnimation'] = '0' if o2.get('PNGEnableAnimation', '1') != '0' else '1'
+        ImageWriter(o2, _palette_arg(case)).write_image(frames, io.BytesIO())
     f = io.BytesIO()
     iw.write_image(frames, f)
     return f.getvalue(), used
@@ -951,6 +957,8 @@ def oracle(case, rec=None):
             klass.append('multi-frame')
         if case.get('warm'):
             klass.append('writer-reused')
+        if case.get('rewrite'):
+            klass.append('frames-rewritten')
         if any(_xforms(case)):
             klass.append('flip/rotate')
         if case.get('colours'):
